@@ -25,12 +25,21 @@ func zzSourceCache(capv int64) (*Store[uint64, uint64], []zzSaved, int64) {
 	s := NewStore[uint64, uint64](&StoreOptions[uint64, uint64]{MaxSize: capv})
 	vfQuiesce()
 	n := vfConfig("N", 4)
+	maxCost := int64(vfConfig("MAXCOST", 3))
+	if sh := vfConfig("SHRUNK", 0); sh > 0 {
+		// an adaptive split the hill climber reaches by its first move at this size: the window has given SHRUNK
+		// units to the protected region (the sum of the two is invariant, C07's climb lemma). Set by hand because
+		// reaching it through sample periods takes thousands of calls at MaxSize 1000.
+		s.policy.window.capacity -= uint(sh)
+		s.policy.slru.protected.capacity += uint(sh)
+		vfReach("window-shrunk")
+	}
 	for i := 0; i < n; i++ {
 		c := int64(1)
 		if vfConfig("COSTS", 0) == 1 {
 			c = vfI64("cost")
 			vfAssume(c >= 1)
-			vfAssume(c <= 3)
+			vfAssume(c <= maxCost)
 		}
 		var ttl int64
 		if i%2 == 1 {
@@ -304,7 +313,8 @@ func ZZ_C12_Faults() {
 		vl = 8
 		vfNote("versionMismatch", 1)
 	}
-	dst := NewStore[uint64, uint64](&StoreOptions[uint64, uint64]{MaxSize: capv})
+	// CAP2: the loading cache may be smaller than the saved one (regions fill up before the stream ends)
+	dst := NewStore[uint64, uint64](&StoreOptions[uint64, uint64]{MaxSize: int64(vfConfig("CAP2", int(capv)))})
 	vfQuiesce()
 	err = dst.Recover(vl, vfStreamReader(w))
 	vfReach("recover-returned")
